@@ -122,7 +122,7 @@ class SV:
         return sym_log_product(x) if self.e is not None else math.log(x)
 
 
-def structural_fn(cells, native_model=None):
+def structural_fn(cells, native_model=None, reuse=False):
     def fn(e):
         import ghedesigner.radial_numerical_borehole as R
         v = SV(e=e) if native_model is None else SV(model=native_model)
@@ -137,7 +137,17 @@ def structural_fn(cells, native_model=None):
         rf, rpg = e.real('R_f_eff', 1e-4, 0.5), e.real('R_pg_eff', 1e-3, 1.0)
         sut = NS(b=NS(r_b=r_b, H=H), pipe=NS(r_out=r_out, r_in=r_in, rhoCp=c_p), soil=NS(k=k_s, rhoCp=c_s), k_s=k_s,
                  fluid=NS(rhoCp=c_f), grout=NS(rhoCp=c_g))
-        rn = R.RadialNumericalBH(sut)
+        if reuse:
+            # the model was built for another tube of the same geometry (other fluid / pipe / grout / soil properties, other height) and is
+            # now asked for this one, as calc_sts_g_functions does through partial_init on every call
+            other = NS(b=NS(r_b=r_b, H=e.real('H_prev', 20, 400)), pipe=NS(r_out=r_out, r_in=r_in, rhoCp=e.real('c_p_prev', 1.0e6, 2.5e6)),
+                       soil=NS(k=e.real('k_s_prev', 0.5, 5.0), rhoCp=e.real('c_s_prev', 1.0e6, 4.0e6)), k_s=None,
+                       fluid=NS(rhoCp=e.real('c_f_prev', 3.0e6, 4.3e6)), grout=NS(rhoCp=e.real('c_g_prev', 1.0e6, 4.5e6)))
+            other.k_s = other.soil.k
+            rn = R.RadialNumericalBH(other)
+            rn.partial_init(sut)
+        else:
+            rn = R.RadialNumericalBH(sut)
         # valid borehole: the equivalent tube fits and the fluid core has a positive radius
         e.assume((rn.r_fluid > 0) & (rn.r_out_tube < r_b))
         # ln is strictly increasing: lemma instances for the uninterpreted L at the layer boundaries used as denominators
@@ -187,10 +197,10 @@ def structural_fn(cells, native_model=None):
     return fn
 
 
-def structural_replay(cells):
+def structural_replay(cells, reuse=False):
     def replay(model, notes):
         restore_shadows()
-        cs = structural_fn(cells, native_model=model)(None)
+        cs = structural_fn(cells, native_model=model, reuse=reuse)(None)
         bad = [k for k, c in enumerate(cs) if not bool(c)]
         return bool(bad), dict(failed_checks=bad[:10], n_checks=len(cs))
     return replay
@@ -467,6 +477,9 @@ def units(tier, seed):
                'production mesh 3/1/4/27/500 = 535 cells; r_b in [50,120] mm, pipe radii, H, conductivities, heat capacities, both effective resistances all symbolic reals; '
                'validity: r_fluid > 0 and sqrt(2) r_out < r_b', AS, ST, max_seconds=1200, timeout_ms=120000),
           Unit('structure_small_mesh', structural_fn((2, 2, 3, 4, 6)), structural_replay((2, 2, 3, 4, 6)), setup, F[:2], 'mesh 2/2/3/4/6 with the same symbolic geometry (other cell counts)', AS, ST)]
+    us.append(Unit('structure_reused_model', structural_fn((2, 2, 3, 4, 6), reuse=True), structural_replay((2, 2, 3, 4, 6), reuse=True), setup, F[:2] + F[3:],
+                   'mesh 2/2/3/4/6; the model was constructed for a tube with other (symbolic) material properties and height, then partial_init with the tube under test',
+                   AS, ST))
     meshes = [(3, 1, 2, 3, 8)] if tier == 'quick' else [(3, 1, 2, 3, 8), (3, 1, 4, 6, 10)]
     ks = [0, 1, 2, 6] if tier == 'quick' else list(range(12))
     for cells in meshes:
